@@ -341,7 +341,11 @@ def run(ch, ctx, fault=None):
                 else:
                     outcome = ch.weighted("http", [(6, "200"), (1, "garbage"), (1, "404"),
                                                    (1, "connerr")])
-                    url = "http://peer.test/img%d.%s" % (len(imgs) + len(key), fmt.lower())
+                    # different images whose URLs end in the same file name are common
+                    # (.../cats/anim.gif, .../dogs/anim.gif)
+                    url = "http://peer.test/dir%d/%s.%s" % (
+                        len(imgs) + len(key), ch.pick("urlname", ("anim", "anim", "pic")),
+                        fmt.lower())
                     http.routes[url] = {"200": (200, data), "garbage": (200, b"not an image" * 5),
                                         "404": (404, b""), "connerr": ("connerr", b"")}[outcome]
                     desc += " [http %s]" % outcome
